@@ -206,13 +206,24 @@ def one_sided_exceeds(X, Y, tol, eps, per_seg=24, max_pairs=3000000, levels=7):
             ctrl[i, k] = q
         b2[i] = _second_diff_bound(seg)
     N = len(P)
-    pi = np.repeat(np.arange(N), S)
-    si = np.tile(np.arange(S), N)
+    thr = tol + eps
+    # prefilter: a curve lies in the bounding box of its control points, so a point farther than thr from the
+    # box is farther than thr from the curve
+    lo = np.array([[min(q[0] for q in seg), min(q[1] for q in seg)] for seg in Y])
+    hi = np.array([[max(q[0] for q in seg), max(q[1] for q in seg)] for seg in Y])
+    dx = np.maximum(np.maximum(lo[None, :, 0] - P[:, None, 0], P[:, None, 0] - hi[None, :, 0]), 0.0)
+    dy = np.maximum(np.maximum(lo[None, :, 1] - P[:, None, 1], P[:, None, 1] - hi[None, :, 1]), 0.0)
+    dbox = np.hypot(dx, dy)                                     # (N, S)
+    nearbox = dbox <= thr
+    lonely = ~nearbox.any(axis=1)
+    if lonely.any():
+        k = int(np.argmax(lonely))
+        return True, (float(P[k, 0]), float(P[k, 1])), float(dbox[k].min())
+    pi, si = np.nonzero(nearbox)
     t0 = np.zeros(len(pi))
     t1 = np.ones(len(pi))
     alive = np.ones(N, dtype=bool)          # not yet cleared
     M = 8
-    thr = tol + eps
     for level in range(levels):
         if len(pi) == 0:
             break
